@@ -183,6 +183,13 @@ func findInlineNode(file *ast.File, comment *ast.Comment, fset *token.FileSet) (
 		return file.Decls[i].End() > commentPos
 	})
 
+	// A comment that trails the last token of the preceding declaration is inline for that line
+	if idx > 0 && fset.PositionFor(file.Decls[idx-1].End(), false).Line == commentLine {
+		if fileContent := fset.File(commentPos); fileContent != nil {
+			return fileContent.LineStart(commentLine), comment.End(), true
+		}
+	}
+
 	// If no declaration found, not inline
 	if idx >= len(file.Decls) {
 		return 0, 0, false
